@@ -38,6 +38,10 @@ class RequestHandlerShutdown(RuntimeError):
     pass
 
 
+class _RequestFormatError(ValueError):
+    pass
+
+
 class _RequestHandler:
     ENCODING = "utf-8"
 
@@ -62,11 +66,16 @@ class _RequestHandler:
         self.logger.info("<= [%s]: %s", client_address, data)
         try:
             response = {}
-            request = json.loads(data)
+            try:
+                request = json.loads(data)
+            except (RecursionError, ValueError) as e:
+                # Besides syntax errors, parsing can fail due to
+                # too deeply nested structures or too big integers
+                raise _RequestFormatError(format(e))
             self.logger.debug("Delivering request")
             response = self.protocol.handle_request(request)
             self.logger.debug("Got response: %s", response)
-        except json.decoder.JSONDecodeError as e:
+        except (json.decoder.JSONDecodeError, _RequestFormatError) as e:
             self.logger.debug("JSON error: %s", e)
             response = self.protocol.format_error()
         except NotImplementedError as e:
